@@ -132,7 +132,7 @@ pub enum OutputFeatures { Plain, Coinbase }
 // grin_core::core::Transaction { offset, body }: the body is an opaque value with ghost views (prelude/crypto.rs)
 pub struct TransactionBody { pub t: u64 }
 pub struct Transaction { pub body: TransactionBody, pub offset: BlindingFactor }
-pub struct SlatepackAddress { pub pub_key: DalekPublicKey }
+pub struct SlatepackAddress { pub hrp: String, pub pub_key: DalekPublicKey }
 impl Clone for SlatepackAddress { #[verifier::external_body] fn clone(&self) -> (r: Self) ensures r == *self { unimplemented!() } }
 
 // A-clone (L8): clone of a Vec of plain data is an equal Vec
